@@ -616,6 +616,19 @@ fn remaining_window(limit: TransferNumber, next_outgoing_id: TransferNumber) -> 
     }
 }
 
+impl Drop for Session {
+    fn drop(&mut self) {
+        // The session is gone (ended, or its connection stopped): wake the deliveries that
+        // still wait for an outcome so that they report the recorded stop reason
+        for link in self.link_by_input_handle.values() {
+            link.fail_pending_deliveries();
+        }
+        for link in self.link_by_name.values().flatten() {
+            link.fail_pending_deliveries();
+        }
+    }
+}
+
 impl endpoint::Session for Session {
     type AllocError = AllocLinkError;
     type BeginError = SessionStateError;
@@ -928,6 +941,8 @@ impl endpoint::Session for Session {
             .remove(&InputHandle::from(detach.handle.clone()))
         {
             Some(mut link) => {
+                // No disposition can arrive for this link any more
+                link.fail_pending_deliveries();
                 // The link endpoint may already have been dropped without an explicit
                 // close handshake (e.g. a `Sender`/`Receiver` that was simply dropped).
                 // In that case the frame cannot be forwarded and the detach reply is
